@@ -46,5 +46,9 @@ Dry-runs on a scratch copy (VERIF_REPO=/var/tmp/c19dev ./check C19 quick, findin
  M11 grammar_parse.go parseReturn: an extra p.l.Next() after p.next(EOL)       RED  no crash reachable (the parser still stops at the next EOF):
      C19_facts_ok (parserCalls) and the correspondence break -> no-failing-input-found
  M12 harmless: parseCall's local `names` -> `seen`, parseStatement's `tok` -> `first`   GREEN (exit 0)
+ R1  fix 3f38189 reverted (concatStrings indexes Vars[0] again)                RED  C19_facts_ok / C19_concat_guard_ok break, the fixed-* corpus
+     witnesses fail again (54 oracle failures of class concat-string-bare-fstring: a VIOLATION with failing input once the class is listed as fixed)
+ R2  fix e24fab1 reverted (nextToken recursive again)                           RED  C19_facts_ok (nextTokenShape, clause summaries) breaks,
+     corpus fixed-lexer-recursion-stack-overflow.ops crashes the child again (stack overflow)
  M7  harmless: local `next` renamed to `ch` throughout nextToken, `l.line++` / `l.col = 0` swapped   GREEN (exit 0, 0 disagreements)
 """
